@@ -272,41 +272,46 @@ Proof. unfold recvd. rewrite flat_map_app. cbn [flat_map]. rewrite app_nil_r. re
 (* ------------------------------------------------------------------ transition shapes on the core *)
 Definition c_get (c : core) (r : N) : option rx := get (c_rxs c) r.
 
-Definition rx_upd_ok (fixed : bool) (x x' : rx) : Prop :=
+(* which op may introduce a taint: only Clone / to_sync,to_async of a receiver / of the sender *)
+Inductive okind := KOther | KClone (r : N) | KRConv (r : N) | KSConv.
+Definition kind_of (o : op) : okind :=
+  match o with RClone r _ => KClone r | RConv r => KRConv r | SConv => KSConv | _ => KOther end.
+
+Definition rx_upd_ok (kd : okind) (r : N) (fixed : bool) (x x' : rx) : Prop :=
   r_cur x' = r_cur x /\ r_start x' = r_start x /\
   (   (r_reg x' = false /\ r_closed x' = true /\ r_taint x' = r_taint x)
    \/ (r_reg x' = r_reg x /\ r_closed x' = r_closed x /\ r_taint x' = r_taint x /\
        (r_live x' = true \/ r_closed x = true))
    \/ (fixed = false /\ r_reg x' = r_reg x /\ r_closed x' = false /\ r_live x' = true /\
-       r_taint x' = (r_taint x || r_closed x))).
+       r_taint x' = (r_taint x || r_closed x) /\ kd = KRConv r)).
 
-Definition clone_ok (fixed : bool) (x xc : rx) : Prop :=
-  r_cur xc = r_cur x /\ r_start xc = r_cur x /\ r_live xc = true /\
+Definition clone_ok (kd : okind) (r : N) (fixed : bool) (x xc : rx) : Prop :=
+  kd = KClone r /\ r_cur xc = r_cur x /\ r_start xc = r_cur x /\ r_live xc = true /\
   (   (r_reg xc = true /\ r_closed xc = false /\ r_taint xc = (r_taint x || negb (r_reg x)) /\
        (fixed = false \/ r_closed x = false))
    \/ (fixed = true /\ r_closed x = true /\ r_reg xc = false /\ r_closed xc = true /\ r_taint xc = r_taint x)).
 
-Definition sender_ok (c : core) (a cl t pd : bool) : Prop :=
+Definition sender_ok (kd : okind) (c : core) (a cl t pd : bool) : Prop :=
   c_alive c = true /\
   (   (c_closed c = false /\ a = true /\ cl = true /\ t = c_taint c /\ pd = true)
    \/ (a = false /\ cl = true /\ t = c_taint c /\ (pd = true \/ (c_closed c = true /\ pd = c_pdrop c)))
-   \/ (c_fixed c = false /\ a = true /\ cl = false /\ t = (c_taint c || c_closed c) /\ pd = c_pdrop c)).
+   \/ (c_fixed c = false /\ a = true /\ cl = false /\ t = (c_taint c || c_closed c) /\ pd = c_pdrop c /\ kd = KSConv)).
 
-Inductive shape (c : core) (o : out) : core -> Prop :=
-| Sh_same : quiet o -> shape c o c
+Inductive shape (kd : okind) (c : core) (o : out) : core -> Prop :=
+| Sh_same : quiet o -> shape kd c o c
 | Sh_send vs sp : quiet o -> c_space c = Some sp -> lenN vs <= sp -> c_alive c = true -> c_closed c = false ->
-    shape c o (with_log c (c_log c ++ vs))
+    shape kd c o (with_log c (c_log c ++ vs))
 | Sh_recv r x k : c_get c r = Some x -> r_closed x = false ->
     r_cur x + k <= c_head c ->
     vals_of r o = map (c_slot_val c) (seqN (r_cur x) (N.to_nat k)) ->
     (forall r', r' <> r -> vals_of r' o = []) ->
-    shape c o (with_rxs c (set (c_rxs c) r (adv x k)))
-| Sh_rx_upd r x x' : quiet o -> c_get c r = Some x -> r_live x = true -> rx_upd_ok (c_fixed c) x x' ->
-    shape c o (with_rxs c (set (c_rxs c) r x'))
+    shape kd c o (with_rxs c (set (c_rxs c) r (adv x k)))
+| Sh_rx_upd r x x' : quiet o -> c_get c r = Some x -> r_live x = true -> rx_upd_ok kd r (c_fixed c) x x' ->
+    shape kd c o (with_rxs c (set (c_rxs c) r x'))
 | Sh_clone r x cid xc : quiet o -> c_get c r = Some x -> r_live x = true -> c_get c cid = None ->
-    clone_ok (c_fixed c) x xc ->
-    shape c o (with_rxs c (set (c_rxs c) cid xc))
-| Sh_sender a cl t pd : quiet o -> sender_ok c a cl t pd -> shape c o (with_sender c a cl t pd).
+    clone_ok kd r (c_fixed c) x xc ->
+    shape kd c o (with_rxs c (set (c_rxs c) cid xc))
+| Sh_sender a cl t pd : quiet o -> sender_ok kd c a cl t pd -> shape kd c o (with_sender c a cl t pd).
 
 Lemma with_log_same c : with_log c (c_log c) = c.
 Proof. destruct c; reflexivity. Qed.
@@ -395,7 +400,7 @@ Proof.
 Qed.
 
 (* ------------------------------------------------------------------ every step has one of the shapes *)
-Lemma shape_ext c o o' c' : (forall r, vals_of r o' = vals_of r o) -> shape c o c' -> shape c o' c'.
+Lemma shape_ext kd c o o' c' : (forall r, vals_of r o' = vals_of r o) -> shape kd c o c' -> shape kd c o' c'.
 Proof.
   intros He H. destruct H.
   - apply Sh_same. intros r. rewrite He. apply H.
@@ -423,9 +428,9 @@ Ltac same_tac := apply Sh_same; quiet_tac.
 Lemma recv_shape r x s s' res on_empty :
   get (rxs s) r = Some x -> r_closed x = false ->
   try_recv_core r x s = (s', res) -> quiet on_empty ->
-  shape (proj s) (out_of_rres r res on_empty) (proj s').
+  forall kd, shape kd (proj s) (out_of_rres r res on_empty) (proj s').
 Proof.
-  intros Hg Hc H Hq. apply try_recv_core_spec in H. destruct res as [v| |]; cbn [out_of_rres].
+  intros Hg Hc H Hq kd. apply try_recv_core_spec in H. destruct res as [v| |]; cbn [out_of_rres].
   - destruct H as (Hp & Hb & Hv & _). rewrite Hp.
     change (rxs s) with (c_rxs (proj s)).
     eapply Sh_recv with (k := 1); eauto.
@@ -438,9 +443,9 @@ Qed.
 Lemma recv_batch_shape r x n s s' res on_empty :
   get (rxs s) r = Some x -> r_closed x = false ->
   try_recv_batch_core r x n s = (s', res) -> quiet on_empty ->
-  shape (proj s) (out_of_bres r res on_empty) (proj s').
+  forall kd, shape kd (proj s) (out_of_bres r res on_empty) (proj s').
 Proof.
-  intros Hg Hc H Hq. apply try_recv_batch_core_spec in H. destruct res as [vs| |]; cbn [out_of_bres].
+  intros Hg Hc H Hq kd. apply try_recv_batch_core_spec in H. destruct res as [vs| |]; cbn [out_of_bres].
   - destruct H as (k & Hp & Hb & _ & _ & Hv). rewrite Hp.
     change (rxs s) with (c_rxs (proj s)).
     eapply Sh_recv with (k := k); eauto.
@@ -452,9 +457,9 @@ Qed.
 
 Lemma send1_shape v s s' res o :
   s_alive s = true -> s_closed s = false -> quiet o ->
-  try_send_core v s = (s', res) -> shape (proj s) o (proj s').
+  try_send_core v s = (s', res) -> forall kd, shape kd (proj s) o (proj s').
 Proof.
-  intros Ha Hc Hq H. apply try_send_core_spec in H. destruct res.
+  intros Ha Hc Hq H kd. apply try_send_core_spec in H. destruct res.
   - destruct H as (Hp & sp & Hs & Hle). rewrite Hp.
     change (log s) with (c_log (proj s)). eapply Sh_send; eauto.
   - destruct H as (-> & _). apply Sh_same. exact Hq.
@@ -463,9 +468,9 @@ Qed.
 
 Lemma send_some_shape vs s s' k rest o :
   s_alive s = true -> s_closed s = false -> quiet o ->
-  send_some vs s = Some (s', k, rest) -> shape (proj s) o (proj s').
+  send_some vs s = Some (s', k, rest) -> forall kd, shape kd (proj s) o (proj s').
 Proof.
-  intros Ha Hc Hq H. pose proof (send_some_spec vs s) as Hs. rewrite H in Hs.
+  intros Ha Hc Hq H kd. pose proof (send_some_spec vs s) as Hs. rewrite H in Hs.
   destruct Hs as (sp & Hsp & Hk & _ & Hp). rewrite Hp.
   change (log s) with (c_log (proj s)). eapply Sh_send; eauto.
   rewrite firstnN_len. lia.
@@ -484,12 +489,12 @@ Qed.
 
 Ltac pinv H := inversion H; subst; clear H.
 
-Lemma new_fut_shape s f k s' o : new_fut s f k = (s', o) -> shape (proj s) o (proj s').
+Lemma new_fut_shape kd s f k s' o : new_fut s f k = (s', o) -> shape kd (proj s) o (proj s').
 Proof.
   unfold new_fut. destruct (get (futs s) f); intros H; pinv H; same_tac.
 Qed.
 
-Lemma poll_shape s f x w s' o : poll_fut s f x w = (s', o) -> shape (proj s) o (proj s').
+Lemma poll_shape kd s f x w s' o : poll_fut s f x w = (s', o) -> shape kd (proj s) o (proj s').
 Proof.
   unfold poll_fut. destruct (f_kind x) as [r|r n|v|rest sent total|rest sent].
   - destruct (get (rxs s) r) as [y|] eqn:Eg; [|intros H; pinv H; same_tac].
@@ -497,21 +502,21 @@ Proof.
     destruct (try_recv_core r y s) as [s1 res] eqn:Et.
     pose proof (recv_shape r y s s1 res OPending Eg Ec Et ltac:(quiet_tac)) as Hs.
     destruct res; intros H; pinv H; rewrite ?proj_kill, ?proj_pend, ?proj_register;
-      (eapply shape_ext; [|exact Hs]); intros r0; reflexivity.
+      (eapply shape_ext; [|apply Hs]); intros r0; reflexivity.
   - destruct (get (rxs s) r) as [y|] eqn:Eg; [|intros H; pinv H; same_tac].
     destruct (r_closed y) eqn:Ec; [intros H; pinv H; rewrite proj_kill; same_tac|].
     destruct (N.eqb n 0); [intros H; pinv H; rewrite proj_kill; same_tac|].
     destruct (try_recv_batch_core r y n s) as [s1 res] eqn:Et.
     pose proof (recv_batch_shape r y n s s1 res OPending Eg Ec Et ltac:(quiet_tac)) as Hs.
     destruct res; intros H; pinv H; rewrite ?proj_kill, ?proj_pend, ?proj_register;
-      (eapply shape_ext; [|exact Hs]); intros r0; reflexivity.
+      (eapply shape_ext; [|apply Hs]); intros r0; reflexivity.
   - destruct (s_alive s) eqn:Ea; cbn [negb]; [|intros H; pinv H; same_tac].
     destruct (s_closed s) eqn:Ec; [intros H; pinv H; rewrite proj_add_drops, proj_kill; same_tac|].
     destruct (try_send_core v s) as [s1 res] eqn:Et.
     pose proof (send1_shape v s s1 res OOk Ea Ec ltac:(quiet_tac) Et) as Hs.
     destruct res; intros H; pinv H;
       rewrite ?proj_add_drops, ?proj_kill, ?proj_pend, ?proj_reg_producer;
-      (eapply shape_ext; [|exact Hs]); intros r0; reflexivity.
+      (eapply shape_ext; [|apply Hs]); intros r0; reflexivity.
   - destruct (s_alive s) eqn:Ea; cbn [negb]; [|intros H; pinv H; same_tac].
     destruct (N.eqb sent total); [intros H; pinv H; rewrite proj_kill; same_tac|].
     destruct (s_closed s) eqn:Ec; [intros H; pinv H; rewrite proj_add_drops, proj_kill; same_tac|].
@@ -520,7 +525,7 @@ Proof.
     pose proof (send_some_shape rest s s1 k rest' OOk Ea Ec ltac:(quiet_tac) Es) as Hs.
     destruct (N.eqb (sent + k) total); intros H; pinv H;
       rewrite ?proj_add_drops, ?proj_kill, ?proj_pend, ?proj_reg_producer;
-      (eapply shape_ext; [|exact Hs]); intros r0; reflexivity.
+      (eapply shape_ext; [|apply Hs]); intros r0; reflexivity.
   - destruct (s_alive s) eqn:Ea; cbn [negb]; [|intros H; pinv H; same_tac].
     destruct rest as [|v0 rest0]; [intros H; pinv H; rewrite proj_kill; same_tac|].
     destruct (s_closed s) eqn:Ec; [intros H; pinv H; rewrite proj_add_drops, proj_kill; same_tac|].
@@ -529,7 +534,7 @@ Proof.
     pose proof (send_some_shape (v0 :: rest0) s s1 k rest' OOk Ea Ec ltac:(quiet_tac) Es) as Hs.
     destruct rest'; intros H; pinv H;
       rewrite ?proj_add_drops, ?proj_kill, ?proj_pend, ?proj_reg_producer;
-      (eapply shape_ext; [|exact Hs]); intros r0; reflexivity.
+      (eapply shape_ext; [|apply Hs]); intros r0; reflexivity.
 Qed.
 
 Lemma proj_release s : proj (release s) = proj s.
@@ -538,7 +543,7 @@ Proof. unfold release. destruct (all_dead s); reflexivity. Qed.
 Lemma proj_set_rx s r x : proj (set_rx s r x) = with_rxs (proj s) (set (rxs s) r x).
 Proof. reflexivity. Qed.
 
-Lemma step_shape s op s' o : step s op = (s', o) -> shape (proj s) o (proj s').
+Lemma step_shape s op s' o : step s op = (s', o) -> shape (kind_of op) (proj s) o (proj s').
 Proof.
   destruct op; cbn [step].
   - (* TrySend *)
@@ -546,28 +551,28 @@ Proof.
     destruct (s_closed s) eqn:Ec; [intros H; pinv H; same_tac|].
     destruct (try_send_core v s) as [s1 res] eqn:Et.
     pose proof (send1_shape v s s1 res OOk Ea Ec ltac:(quiet_tac) Et) as Hs.
-    destruct res; intros H; pinv H; rewrite ?proj_add_drops; (eapply shape_ext; [|exact Hs]); quiet_tac.
+    destruct res; intros H; pinv H; rewrite ?proj_add_drops; (eapply shape_ext; [|apply Hs]); quiet_tac.
   - (* Send *)
     destruct (s_alive s) eqn:Ea; cbn [negb orb]; [|intros H; pinv H; same_tac].
     destruct (s_async s); [intros H; pinv H; same_tac|].
     destruct (s_closed s) eqn:Ec; [intros H; pinv H; same_tac|].
     destruct (try_send_core v s) as [s1 res] eqn:Et.
     pose proof (send1_shape v s s1 res OOk Ea Ec ltac:(quiet_tac) Et) as Hs.
-    destruct res; intros H; pinv H; rewrite ?proj_add_drops; try same_tac; (eapply shape_ext; [|exact Hs]); quiet_tac.
+    destruct res; intros H; pinv H; rewrite ?proj_add_drops; try same_tac; (eapply shape_ext; [|apply Hs]); quiet_tac.
   - (* TrySendB *)
     destruct (s_alive s) eqn:Ea; cbn [negb]; [|intros H; pinv H; same_tac].
     destruct vs as [|v0 vs0]; [intros H; pinv H; same_tac|].
     destruct (s_closed s) eqn:Ec; [intros H; pinv H; same_tac|].
     destruct (send_some (v0 :: vs0) s) as [[[s1 k] rest']|] eqn:Es; [|intros H; pinv H; same_tac].
     pose proof (send_some_shape _ s s1 k rest' OOk Ea Ec ltac:(quiet_tac) Es) as Hs.
-    destruct rest'; intros H; pinv H; rewrite ?proj_add_drops; (eapply shape_ext; [|exact Hs]); quiet_tac.
+    destruct rest'; intros H; pinv H; rewrite ?proj_add_drops; (eapply shape_ext; [|apply Hs]); quiet_tac.
   - (* TrySendM *)
     destruct (s_alive s) eqn:Ea; cbn [negb]; [|intros H; pinv H; same_tac].
     destruct vs as [|v0 vs0]; [intros H; pinv H; same_tac|].
     destruct (s_closed s) eqn:Ec; [intros H; pinv H; same_tac|].
     destruct (send_some (v0 :: vs0) s) as [[[s1 k] rest']|] eqn:Es; [|intros H; pinv H; same_tac].
     pose proof (send_some_shape _ s s1 k rest' OOk Ea Ec ltac:(quiet_tac) Es) as Hs.
-    intros H; pinv H; rewrite ?proj_add_drops; (eapply shape_ext; [|exact Hs]); quiet_tac.
+    intros H; pinv H; rewrite ?proj_add_drops; (eapply shape_ext; [|apply Hs]); quiet_tac.
   - (* SendB *)
     destruct (s_alive s) eqn:Ea; cbn [negb orb]; [|intros H; pinv H; same_tac].
     destruct (s_async s); [intros H; pinv H; same_tac|].
@@ -575,7 +580,7 @@ Proof.
     destruct (s_closed s) eqn:Ec; [intros H; pinv H; same_tac|].
     destruct (send_some (v0 :: vs0) s) as [[[s1 k] rest']|] eqn:Es; [|intros H; pinv H; same_tac].
     pose proof (send_some_shape _ s s1 k rest' OOk Ea Ec ltac:(quiet_tac) Es) as Hs.
-    destruct rest'; intros H; pinv H; try same_tac; (eapply shape_ext; [|exact Hs]); quiet_tac.
+    destruct rest'; intros H; pinv H; try same_tac; (eapply shape_ext; [|apply Hs]); quiet_tac.
   - (* SendM *)
     destruct (s_alive s) eqn:Ea; cbn [negb orb]; [|intros H; pinv H; same_tac].
     destruct (s_async s); [intros H; pinv H; same_tac|].
@@ -583,20 +588,20 @@ Proof.
     destruct (s_closed s) eqn:Ec; [intros H; pinv H; same_tac|].
     destruct (send_some (v0 :: vs0) s) as [[[s1 k] rest']|] eqn:Es; [|intros H; pinv H; same_tac].
     pose proof (send_some_shape _ s s1 k rest' OOk Ea Ec ltac:(quiet_tac) Es) as Hs.
-    destruct rest'; intros H; pinv H; try same_tac; (eapply shape_ext; [|exact Hs]); quiet_tac.
+    destruct rest'; intros H; pinv H; try same_tac; (eapply shape_ext; [|apply Hs]); quiet_tac.
   - (* SClose *)
     destruct (s_alive s) eqn:Ea; cbn [negb]; [|intros H; pinv H; same_tac].
     destruct (tx_busy s); [intros H; pinv H; same_tac|].
     destruct (s_closed s) eqn:Ec; intros H; pinv H; [same_tac|].
     unfold sender_close_internal. rewrite proj_wake_all.
-    change (shape (proj s) OOk (with_sender (proj s) true true (s_taint s) true)).
+    change (shape (kind_of SClose) (proj s) OOk (with_sender (proj s) true true (s_taint s) true)).
     apply Sh_sender; [quiet_tac|]. split; [exact Ea|]. left. cbn [proj c_closed c_taint]. intuition auto.
   - (* SDrop *)
     destruct (s_alive s) eqn:Ea; cbn [negb]; [|intros H; pinv H; same_tac].
     destruct (tx_busy s); [intros H; pinv H; same_tac|].
     intros H; pinv H. rewrite proj_release.
     destruct (s_closed s) eqn:Ec.
-    + change (shape (proj s) OOk (with_sender (proj s) false true (s_taint s) (pdrop s))).
+    + change (shape (kind_of SDrop) (proj s) OOk (with_sender (proj s) false true (s_taint s) (pdrop s))).
       apply Sh_sender; [quiet_tac|]. split; [exact Ea|]. right. left. cbn [proj c_closed c_taint c_pdrop]. intuition auto.
     + set (s1 := sender_close_internal s).
       assert (Hp1 : proj s1 = with_sender (proj s) (s_alive s) (s_closed s) (s_taint s) true)
@@ -614,7 +619,7 @@ Proof.
     + assert (Hc : proj (set_sender s true (s_closed s) (negb (s_async s)) (s_taint s) (pdrop s)) = proj s)
         by (unfold proj; cbn [set_sender fixedm cap log s_alive s_closed s_taint pdrop rxs]; rewrite Ea; reflexivity).
       rewrite Hc. same_tac.
-    + change (shape (proj s) OOk (with_sender (proj s) true false (s_taint s || s_closed s) (pdrop s))).
+    + change (shape (kind_of SConv) (proj s) OOk (with_sender (proj s) true false (s_taint s || s_closed s) (pdrop s))).
       apply Sh_sender; [quiet_tac|]. split; [exact Ea|]. right. right. cbn [proj c_fixed c_closed c_taint c_pdrop]. intuition auto.
   - (* SObs *)
     destruct (s_alive s); cbn [negb]; intros H; pinv H; same_tac.
@@ -678,8 +683,8 @@ Proof.
     destruct (fixedm s && r_closed x) eqn:Eb; pinv H; rewrite proj_set_rx;
       change (rxs s) with (c_rxs (proj s)); (eapply Sh_clone; eauto; [quiet_tac|]).
     + apply andb_true_iff in Eb. destruct Eb as [Ef Ec].
-      split; [reflexivity|]. split; [reflexivity|]. split; [reflexivity|]. right. cbn [proj c_fixed]. intuition auto.
-    + split; [reflexivity|]. split; [reflexivity|]. split; [reflexivity|]. left.
+      split; [reflexivity|]. split; [reflexivity|]. split; [reflexivity|]. split; [reflexivity|]. right. cbn [proj c_fixed]. intuition auto.
+    + split; [reflexivity|]. split; [reflexivity|]. split; [reflexivity|]. split; [reflexivity|]. left.
       cbn [r_reg r_closed r_taint proj c_fixed]. apply andb_false_iff in Eb. tauto.
   - (* RConv *)
     intros H. apply with_rx_inv in H. destruct H as [[-> ->]|(x & Hg & Hl & H)]; [same_tac|].
@@ -692,10 +697,10 @@ Proof.
     intros H. apply with_rx_inv in H. destruct H as [[-> ->]|(x & Hg & Hl & H)]; [same_tac|]. pinv H. same_tac.
   - (* MkRecv *)
     intros H. apply with_rx_inv in H. destruct H as [[-> ->]|(x & Hg & Hl & H)]; [same_tac|].
-    destruct (r_async x); [apply new_fut_shape in H; exact H | pinv H; same_tac].
+    destruct (r_async x); [eapply new_fut_shape; exact H | pinv H; same_tac].
   - (* MkRecvB *)
     intros H. apply with_rx_inv in H. destruct H as [[-> ->]|(x & Hg & Hl & H)]; [same_tac|].
-    destruct (r_async x); [apply new_fut_shape in H; exact H | pinv H; same_tac].
+    destruct (r_async x); [eapply new_fut_shape; exact H | pinv H; same_tac].
   - destruct (s_alive s && s_async s); [apply new_fut_shape | intros H; pinv H; same_tac].
   - destruct (s_alive s && s_async s); [apply new_fut_shape | intros H; pinv H; same_tac].
   - destruct (s_alive s && s_async s); [apply new_fut_shape | intros H; pinv H; same_tac].
@@ -712,7 +717,7 @@ Proof.
     destruct (r_closed x) eqn:Ec; [pinv H; same_tac|].
     destruct (try_recv_core r x s) as [s1 res] eqn:Et.
     pose proof (recv_shape r x s s1 res OPending Hg Ec Et ltac:(quiet_tac)) as Hs.
-    destruct res; pinv H; rewrite ?proj_register; (eapply shape_ext; [|exact Hs]); intros r0; reflexivity.
+    destruct res; pinv H; rewrite ?proj_register; (eapply shape_ext; [|apply Hs]); intros r0; reflexivity.
   - (* Snap *)
     intros H; pinv H; same_tac.
 Qed.
@@ -796,7 +801,7 @@ Ltac fin :=
 
 Ltac rxinv_split := unfold RxInv; split; [|split; [|split; [|split; [|split; [|split]]]]].
 
-Lemma inv_step c outs o c' : InvC c outs -> shape c o c' -> InvC c' (outs ++ [o]).
+Lemma inv_step kd c outs o c' : InvC c outs -> shape kd c o c' -> InvC c' (outs ++ [o]).
 Proof.
   intros I Hs. destruct I as [Icap Ind Inone Irx Is1 Is2 Is3]. destruct Hs.
   - (* same *)
@@ -850,7 +855,7 @@ Proof.
       destruct (N.eq_dec r0 r) as [->|Hne].
       * rewrite get_set_eq in Hg. inversion Hg; subst x0. clear Hg.
         destruct (Irx r x H0) as (A & B & C & D & E & F & G).
-        destruct Hcases as [(R1 & R2 & R3)|[(R1 & R2 & R3 & R4)|(R0 & R1 & R2 & R3 & R4)]];
+        destruct Hcases as [(R1 & R2 & R3)|[(R1 & R2 & R3 & R4)|(R0 & R1 & R2 & R3 & R4 & _)]];
           rxinv_split; change (c_head (with_rxs c (set (c_rxs c) r x'))) with (c_head c);
           cbn [with_rxs c_cap c_log c_fixed]; rewrite ?Hcur, ?Hst, ?R1, ?R2, ?R3, ?R4; fin.
         { split; [|assumption]. destruct R4; congruence. }
@@ -860,7 +865,7 @@ Proof.
           cbn [with_rxs c_cap c_log c_fixed]; auto.
         intros Ht. rewrite recvd_quiet by assumption. auto.
   - (* clone *)
-    destruct H3 as (Hcur & Hst & Hlive & Hcases).
+    destruct H3 as (_ & Hcur & Hst & Hlive & Hcases).
     constructor; auto.
     + cbn [with_rxs c_rxs]. apply set_NoDup. exact Ind.
     + intros r0 Hg. unfold c_get in Hg. cbn [with_rxs c_rxs] in Hg.
@@ -889,11 +894,11 @@ Proof.
     + intros r Hg. rewrite recvd_quiet by assumption. auto.
     + intros r x Hg. destruct (Irx r x Hg) as (A & B & C & D & E & F & G).
       rxinv_split; auto. intros Ht. rewrite recvd_quiet by assumption. auto.
-    + destruct Hcases as [(R1 & -> & -> & -> & ->)|[(-> & -> & -> & [->|[R1 ->]])|(R0 & -> & -> & -> & ->)]]; auto.
+    + destruct Hcases as [(R1 & -> & -> & -> & ->)|[(-> & -> & -> & [->|[R1 ->]])|(R0 & -> & -> & -> & -> & _)]]; auto.
       intros [?|?]; congruence.
-    + destruct Hcases as [(R1 & -> & -> & -> & ->)|[(-> & -> & -> & [->|[R1 ->]])|(R0 & -> & -> & -> & ->)]]; auto.
+    + destruct Hcases as [(R1 & -> & -> & -> & ->)|[(-> & -> & -> & [->|[R1 ->]])|(R0 & -> & -> & -> & -> & _)]]; auto.
       intros Hp. destruct (Is2 Hp) as [Hc|[Hc|Hc]]; [|congruence|]; right; right; rewrite Hc; auto using orb_true_r.
-    + destruct Hcases as [(R1 & -> & -> & -> & ->)|[(-> & -> & -> & [->|[R1 ->]])|(R0 & -> & -> & -> & ->)]]; auto.
+    + destruct Hcases as [(R1 & -> & -> & -> & ->)|[(-> & -> & -> & [->|[R1 ->]])|(R0 & -> & -> & -> & -> & _)]]; auto.
       congruence.
 Qed.
 
@@ -1030,4 +1035,233 @@ Proof.
   exists m. split; [reflexivity|]. change (c_head (proj s)) with (head s) in Hle. cbn [c_cap proj] in Hle.
   split; [|split; assumption].
   assert (lenN vs <> 0) by (unfold lenN; destruct vs; [congruence|cbn [length]; lia]). lia.
+Qed.
+
+(* ---- C07: closing / dropping a receiver releases the backpressure it caused and wakes the producer *)
+Lemma wlog_release s : wlog (release s) = wlog s.
+Proof. unfold release. destruct (all_dead s); reflexivity. Qed.
+
+Lemma close_or_drop_spec s r x o :
+  get (rxs s) r = Some x -> r_live x = true -> r_closed x = false -> rx_busy s r = false ->
+  o = RClose r \/ o = RDrop r ->
+  snd (step s o) = OOk /\
+  (exists x', r_reg x' = false /\ proj (fst (step s o)) = with_rxs (proj s) (set (rxs s) r x')) /\
+  (forall w, pw s = Some w -> wlog (fst (step s o)) = w :: wlog s).
+Proof.
+  intros Hg Hl Hc Hb [-> | ->]; cbn [step]; unfold with_rx; rewrite Hg, Hl, ?Hb, Hc.
+  - cbn [fst snd]. split; [reflexivity|]. split.
+    + exists (rx_unreg x). split; [reflexivity|]. rewrite proj_wake_producer. reflexivity.
+    + intros w Hw. unfold wake_producer. cbn [set_rx set_rxs pw]. rewrite Hw. reflexivity.
+  - set (s1 := wake_producer (set_rx s r (rx_unreg x))).
+    assert (Hp1 : proj s1 = with_rxs (proj s) (set (rxs s) r (rx_unreg x)))
+      by (unfold s1; rewrite proj_wake_producer; reflexivity).
+    assert (Hr1 : rxs s1 = set (rxs s) r (rx_unreg x))
+      by (change (c_rxs (proj s1) = set (rxs s) r (rx_unreg x)); rewrite Hp1; reflexivity).
+    rewrite Hr1, get_set_eq. cbn [fst snd]. split; [reflexivity|]. split.
+    + eexists. split; [|rewrite proj_release, proj_set_rx, Hp1, Hr1, set_set; reflexivity]. reflexivity.
+    + intros w Hw. rewrite wlog_release. cbn [set_rx set_rxs wlog].
+      unfold s1, wake_producer. cbn [set_rx set_rxs pw]. rewrite Hw. reflexivity.
+Qed.
+
+Theorem spmc_close_releases fx c a ops s outs r x v o :
+  0 < c -> run fx c a ops = (s, outs) ->
+  s_alive s = true -> s_closed s = false ->
+  get (rxs s) r = Some x -> r_live x = true -> r_closed x = false -> rx_busy s r = false ->
+  (forall r' x', r' <> r -> get (rxs s) r' = Some x' -> r_reg x' = true -> head s - r_cur x' < cap s) ->
+  o = RClose r \/ o = RDrop r ->
+  let s1 := fst (step s o) in
+  snd (step s o) = OOk /\
+  (snd (step s1 (TrySend v)) = OOk \/ (snd (step s1 (TrySend v)) = OClosedV v /\ cursors s1 = [])) /\
+  (forall w, pw s = Some w -> wlog s1 = w :: wlog s).
+Proof.
+  intros Hc Hr Ha Hcl Hg Hl Hrc Hb Hothers Ho s1.
+  pose proof (inv_run _ _ _ _ _ _ Hc Hr) as I.
+  destruct (close_or_drop_spec s r x o Hg Hl Hrc Hb Ho) as (Hout & (x' & Hx' & Hp) & Hw).
+  fold s1 in Hp, Hw. split; [exact Hout|]. split; [|exact Hw].
+  assert (Ha1 : s_alive s1 = true) by (change (c_alive (proj s1) = true); rewrite Hp; exact Ha).
+  assert (Hc1 : s_closed s1 = false) by (change (c_closed (proj s1) = false); rewrite Hp; exact Hcl).
+  assert (Hh1 : head s1 = head s) by (change (c_head (proj s1) = head s); rewrite Hp; reflexivity).
+  assert (Hcap1 : cap s1 = cap s) by (change (c_cap (proj s1) = cap s); rewrite Hp; reflexivity).
+  pose proof (spmc_try_send_exact s1 v Ha1 Hc1) as Hex.
+  destruct (minl (cursors s1)) as [m|] eqn:Em.
+  - left. apply minl_in in Em. change (cursors s1) with (c_cursors (proj s1)) in Em.
+    rewrite Hp in Em. apply in_cursors in Em; [|cbn [with_rxs c_rxs]; apply set_NoDup; exact (i_nd _ _ I)].
+    destruct Em as (r0 & x0 & Hg0 & Hreg0 & Hcur0). unfold c_get in Hg0. cbn [with_rxs c_rxs] in Hg0.
+    destruct (N.eq_dec r0 r) as [->|Hne].
+    + rewrite get_set_eq in Hg0. inversion Hg0; subst x0. congruence.
+    + rewrite get_set_neq in Hg0 by exact Hne. specialize (Hothers r0 x0 Hne Hg0 Hreg0).
+      rewrite Hh1, Hcap1 in Hex. destruct (N.ltb_spec (head s - m) (cap s)); [tauto|lia].
+  - right. rewrite Hex. cbn [snd]. split; [reflexivity|]. apply minl_none. exact Em.
+Qed.
+
+(* ---- C07 / C04: Disconnected only once the sender is gone and the receiver has drained its view *)
+Theorem spmc_try_recv_disc fx c a ops s outs r s' :
+  0 < c -> run fx c a ops = (s, outs) -> step s (TryRecv r) = (s', ODisc r) ->
+  exists x, get (rxs s) r = Some x /\ r_live x = true /\
+    (r_closed x = true \/
+     (pdrop s = true /\ r_cur x = head s /\
+      (s_alive s = false \/ s_closed s = true \/ s_taint s = true) /\
+      (r_taint x = false -> recvd r outs = slice (log s) (r_start x) (head s)))).
+Proof.
+  intros Hc Hr Hs. pose proof (inv_run _ _ _ _ _ _ Hc Hr) as I.
+  cbn [step] in Hs. apply with_rx_inv in Hs. destruct Hs as [[_ H]|(x & Hg & Hl & H)]; [discriminate|].
+  exists x. split; [exact Hg|]. split; [exact Hl|].
+  destruct (r_closed x) eqn:Ecl; [left; reflexivity|right].
+  destruct (try_recv_core r x s) as [s1 res] eqn:Et. apply try_recv_core_spec in Et.
+  destruct res; cbn [out_of_rres] in H; try discriminate.
+  destruct Et as (_ & Hp & Hh).
+  destruct (i_rx _ _ I r x Hg) as (A & B & C & D & E & F & G).
+  change (c_head (proj s)) with (head s) in *.
+  assert (Heq : r_cur x = head s) by lia.
+  split; [exact Hp|]. split; [exact Heq|]. split.
+  - destruct (i_s2 _ _ I Hp) as [?|[?|?]]; auto.
+  - intros Ht. rewrite <- Heq. apply F. exact Ht.
+Qed.
+
+Theorem spmc_try_recv_when_gone_and_drained s r x :
+  get (rxs s) r = Some x -> r_live x = true -> r_closed x = false ->
+  pdrop s = true -> r_cur x = head s -> step s (TryRecv r) = (s, ODisc r).
+Proof.
+  intros Hg Hl Hc Hp Hh. cbn [step]. unfold with_rx. rewrite Hg, Hl, Hc. unfold try_recv_core.
+  assert (Hw : in_window s (r_cur x) = false).
+  { unfold in_window. rewrite Hh. destruct (N.ltb_spec (head s) (head s)); [lia|reflexivity]. }
+  rewrite Hw, Hp. cbn [andb]. destruct (N.leb_spec (head s) (r_cur x)); [reflexivity|lia].
+Qed.
+
+(* the sender being gone is what sets producer_dropped, in every reachable state *)
+Theorem spmc_pdrop_iff_sender_gone fx c a ops s outs :
+  0 < c -> run fx c a ops = (s, outs) ->
+  (s_closed s = true \/ s_alive s = false -> pdrop s = true) /\
+  (pdrop s = true -> s_closed s = true \/ s_alive s = false \/ s_taint s = true).
+Proof.
+  intros Hc Hr. pose proof (inv_run _ _ _ _ _ _ Hc Hr) as I.
+  split; [exact (i_s1 _ _ I) | exact (i_s2 _ _ I)].
+Qed.
+
+(* ------------------------------------------------------------------ C07: full statement, the known
+   finding on the faithful model (fixedm = false), and the full statement for the patched model *)
+Definition spmc_delivery_full (fx : bool) : Prop :=
+  forall c a ops s outs r x,
+    0 < c -> run fx c a ops = (s, outs) -> get (rxs s) r = Some x ->
+    recvd r outs = slice (log s) (r_start x) (r_cur x).
+
+(* witness: receiver 0 is closed at position 0, values 1 and 2 go round the 1-slot ring, then
+   Clone of the closed handle registers a cursor at the stale position 0; its batch receive
+   returns the value of index 1 twice *)
+Definition witness_clone_closed : list op :=
+  [RClone 0 1; RClose 0; TrySend 1; TryRecv 1; TrySend 2; TryRecv 1; RClone 0 2; TryRecvB 2 5].
+
+Lemma spmc_delivery_refuted_clone_closed : ~ spmc_delivery_full false.
+Proof.
+  intros H.
+  specialize (H 1 false witness_clone_closed).
+  destruct (run false 1 false witness_clone_closed) as [s outs] eqn:E.
+  assert (Hg : exists x, get (rxs s) 2 = Some x /\ recvd 2 outs <> slice (log s) (r_start x) (r_cur x)).
+  { vm_compute in E. inversion E; subst. eexists. split; [vm_compute; reflexivity|]. vm_compute. discriminate. }
+  destruct Hg as (x & Hg & Hne). apply Hne. eapply H; [lia|reflexivity|exact Hg].
+Qed.
+
+Theorem spmc_delivery_fixed : spmc_delivery_full true.
+Proof.
+  intros c a ops s outs r x Hc Hr Hg.
+  destruct (spmc_fixed_untainted c a ops s outs Hc Hr) as [_ Ht].
+  apply (spmc_delivery true c a ops s outs r x Hc Hr Hg (Ht r x Hg)).
+Qed.
+
+(* what `r_taint` means operationally: a receiver handle is tainted only if it (or an ancestor in the
+   clone relation) was obtained from a handle that was not in the cursor list: Clone of a closed handle,
+   to_sync/to_async of a closed handle.  On histories that never do that, nothing is tainted. *)
+Definition derives_from_closed (s : st) (o : op) : bool :=
+  match o with
+  | RClone r _ | RConv r =>
+      match get (rxs s) r with
+      | Some x => r_closed x || negb (r_reg x)
+      | None => false
+      end
+  | SConv => s_closed s
+  | _ => false
+  end.
+
+Fixpoint clean_from (s : st) (ops : list op) : bool :=
+  match ops with
+  | [] => true
+  | o :: t => negb (derives_from_closed s o) && clean_from (fst (step s o)) t
+  end.
+
+Definition no_taint (s : st) : Prop :=
+  s_taint s = false /\ forall r x, get (rxs s) r = Some x -> r_taint x = false.
+
+Lemma kind_clone o r : kind_of o = KClone r -> exists c, o = RClone r c.
+Proof. destruct o; cbn [kind_of]; intros H; inversion H; subst. eauto. Qed.
+Lemma kind_rconv o r : kind_of o = KRConv r -> o = RConv r.
+Proof. destruct o; cbn [kind_of]; intros H; inversion H; subst. reflexivity. Qed.
+Lemma kind_sconv o : kind_of o = KSConv -> o = SConv.
+Proof. destruct o; cbn [kind_of]; intros H; inversion H; subst. reflexivity. Qed.
+
+Lemma step_no_taint s o : no_taint s -> derives_from_closed s o = false -> no_taint (fst (step s o)).
+Proof.
+  intros [Hs Hr] Hd. destruct (step s o) as [s' x] eqn:Es. cbn [fst].
+  pose proof (step_shape _ _ _ _ Es) as Hsh.
+  assert (Hgoal : c_taint (proj s') = false /\ forall r y, c_get (proj s') r = Some y -> r_taint y = false);
+    [|exact Hgoal].
+  change (c_taint (proj s) = false) in Hs. change (forall r x, c_get (proj s) r = Some x -> r_taint x = false) in Hr.
+  destruct Hsh as [Hq|vs0 sp Hq Hsp Hle Ha Hc|r x0 k Hg Hcl Hk Hv Ho|r x0 x' Hq Hg Hl0 Hu|r x0 cid xc Hq Hg Hl0 Hn Hk|al cl t pd Hq Hk].
+  - auto.
+  - auto.
+  - split; [exact Hs|]. intros r1 y Hy. unfold c_get in Hy. cbn [with_rxs c_rxs] in Hy.
+    destruct (N.eq_dec r1 r) as [->|Hne].
+    + rewrite get_set_eq in Hy. inversion Hy; subst. cbn [adv r_taint]. apply (Hr r x0 Hg).
+    + rewrite get_set_neq in Hy by exact Hne. apply (Hr r1 y Hy).
+  - split; [exact Hs|]. intros r1 y Hy. unfold c_get in Hy. cbn [with_rxs c_rxs] in Hy.
+    destruct (N.eq_dec r1 r) as [->|Hne].
+    + rewrite get_set_eq in Hy. inversion Hy; subst y.
+      destruct Hu as (_ & _ & [(_ & _ & ->)|[(_ & _ & -> & _)|(Hf & Hreg & Hcl & Hlv & -> & Hkd)]]);
+        try (apply (Hr r x0 Hg)).
+      apply kind_rconv in Hkd. subst o. cbn [derives_from_closed] in Hd.
+      unfold c_get in Hg. cbn [proj c_rxs] in Hg. rewrite Hg in Hd. apply orb_false_iff in Hd. destruct Hd as [Hd _].
+      rewrite (Hr r x0 Hg), Hd. reflexivity.
+    + rewrite get_set_neq in Hy by exact Hne. apply (Hr r1 y Hy).
+  - split; [exact Hs|]. intros r1 y Hy. unfold c_get in Hy. cbn [with_rxs c_rxs] in Hy.
+    destruct (N.eq_dec r1 cid) as [->|Hne].
+    + rewrite get_set_eq in Hy. inversion Hy; subst y.
+      destruct Hk as (Hkd & _ & _ & _ & [(_ & _ & -> & _)|(_ & _ & _ & _ & ->)]); [|apply (Hr r x0 Hg)].
+      apply kind_clone in Hkd. destruct Hkd as [c0 ->]. cbn [derives_from_closed] in Hd.
+      unfold c_get in Hg. cbn [proj c_rxs] in Hg. rewrite Hg in Hd. apply orb_false_iff in Hd. destruct Hd as [_ Hd].
+      rewrite (Hr r x0 Hg), Hd. reflexivity.
+    + rewrite get_set_neq in Hy by exact Hne. apply (Hr r1 y Hy).
+  - split; [|exact Hr]. cbn [with_sender c_taint].
+    destruct Hk as (_ & [(_ & _ & _ & -> & _)|[(_ & _ & -> & _)|(_ & _ & _ & -> & _ & Hkd)]]); try exact Hs.
+    apply kind_sconv in Hkd. subst o. cbn [derives_from_closed] in Hd.
+    rewrite Hs. change (c_closed (proj s)) with (s_closed s). rewrite Hd. reflexivity.
+Qed.
+
+Lemma clean_no_taint ops : forall s, no_taint s -> clean_from s ops = true ->
+  no_taint (fst (runacc (s, []) ops)) /\ forall acc, fst (runacc (s, acc) ops) = fst (runacc (s, []) ops).
+Proof.
+  assert (Hacc : forall ops s acc, fst (runacc (s, acc) ops) = fst (runacc (s, []) ops)).
+  { induction ops0 as [|o t IH]; intros s acc; [reflexivity|].
+    cbn [runacc fold_left]. change (fold_left stepacc t) with (fun p => runacc p t). cbn beta.
+    unfold stepacc. cbn [fst snd]. destruct (step s o) as [s1 x]. rewrite (IH s1 (x :: acc)), (IH s1 [x]). reflexivity. }
+  induction ops as [|o t IH]; intros s Hn Hc; [split; [exact Hn|intros; reflexivity]|].
+  cbn [clean_from] in Hc. apply andb_true_iff in Hc. destruct Hc as [Hd Hc]. apply negb_true_iff in Hd.
+  split; [|intros acc; apply Hacc].
+  cbn [runacc fold_left]. change (fold_left stepacc t) with (fun p => runacc p t). cbn beta.
+  unfold stepacc. cbn [fst snd]. pose proof (step_no_taint s o Hn Hd) as Hn1.
+  destruct (step s o) as [s1 x]. cbn [fst] in *. rewrite Hacc. apply IH; assumption.
+Qed.
+
+(* the `_except_` form of the delivery theorem with a checkable hypothesis on the history *)
+Theorem spmc_delivery_clean fx c a ops s outs r x :
+  0 < c -> clean_from (init fx c a) ops = true -> run fx c a ops = (s, outs) ->
+  get (rxs s) r = Some x ->
+  recvd r outs = slice (log s) (r_start x) (r_cur x) /\ r_start x <= r_cur x /\ r_cur x <= head s.
+Proof.
+  intros Hc Hcl Hr Hg.
+  assert (Hn0 : no_taint (init fx c a)).
+  { split; [reflexivity|]. intros r0 x0 H0. cbn [init rxs get] in H0. destruct (N.eqb r0 0); [|discriminate].
+    inversion H0. reflexivity. }
+  destruct (clean_no_taint ops _ Hn0 Hcl) as [[_ Hn] _].
+  unfold run in Hr. destruct (runacc (init fx c a, []) ops) as [s1 acc] eqn:E. cbn [fst] in Hn.
+  inversion Hr; subst s1.
+  eapply spmc_delivery; eauto. unfold run. rewrite E. reflexivity.
 Qed.
